@@ -259,4 +259,71 @@ def db : Dir := ⟨[1], 0, none, none, 2, 1, 1/2, false, [1, 2, 7/2], 0⟩
 example : lagRank db (1/4) = none ∧ lagRank db (9/4) = some 0 ∧ lagRank db 9 = some 1 ∧ lagRank db 16 = none := by
   decide +kernel
 
+/-! ### irregular classes: disjointness and exact characterisation -/
+
+theorem sq_mono_nonneg {a b : Q} (ha : 0 ≤ a) (hab : a ≤ b) : Vario.sq a ≤ Vario.sq b := by
+  unfold Vario.sq; nlinarith
+
+/-- for non-negative increasing breaks the classes are disjoint: a distance lies in at most one class, so the lag
+returned (`lag_breaks_sound`) is THE class of the distance and every distance of class `k` is given lag `k` -/
+theorem classes_disjoint (bs : List Q) (hpos : ∀ b ∈ bs, 0 ≤ b) (hinc : bs.Pairwise (· < ·)) (d2 : Q) (j k : Nat)
+    (hj : InClass bs d2 j) (hk : InClass bs d2 k) : j = k := by
+  by_contra hne
+  rcases Nat.lt_or_gt_of_ne hne with h | h
+  · -- j < k: d² ≤ b_{j+1}² ≤ b_k² < d²
+    obtain ⟨_, b1, _, e1, _, h1⟩ := hj
+    obtain ⟨c0, _, f0, _, g0, _⟩ := hk
+    have hb1 : b1 ∈ bs := List.mem_of_getElem? e1
+    have hc0 : c0 ∈ bs := List.mem_of_getElem? f0
+    have hle : b1 ≤ c0 := by
+      rcases Nat.lt_or_ge (j + 1) k with hlt | hge
+      · have := List.pairwise_iff_getElem.1 hinc (j + 1) k (by
+          rcases List.getElem?_eq_some_iff.1 e1 with ⟨hh, _⟩; exact hh) (by
+          rcases List.getElem?_eq_some_iff.1 f0 with ⟨hh, _⟩; exact hh) hlt
+        rcases List.getElem?_eq_some_iff.1 e1 with ⟨h1', e1'⟩
+        rcases List.getElem?_eq_some_iff.1 f0 with ⟨h0', f0'⟩
+        rw [e1', f0'] at this
+        exact le_of_lt this
+      · have : j + 1 = k := by omega
+        subst this
+        rw [e1] at f0; injection f0 with f0; rw [f0]
+    have hc0pos := hpos c0 hc0
+    rcases g0 with g | g
+    · linarith
+    · have := sq_mono_nonneg (hpos b1 hb1) hle
+      linarith [h1.2]
+  · obtain ⟨_, b1, _, e1, _, h1⟩ := hk
+    obtain ⟨c0, _, f0, _, g0, _⟩ := hj
+    have hb1 : b1 ∈ bs := List.mem_of_getElem? e1
+    have hc0 : c0 ∈ bs := List.mem_of_getElem? f0
+    have hle : b1 ≤ c0 := by
+      rcases Nat.lt_or_ge (k + 1) j with hlt | hge
+      · have := List.pairwise_iff_getElem.1 hinc (k + 1) j (by
+          rcases List.getElem?_eq_some_iff.1 e1 with ⟨hh, _⟩; exact hh) (by
+          rcases List.getElem?_eq_some_iff.1 f0 with ⟨hh, _⟩; exact hh) hlt
+        rcases List.getElem?_eq_some_iff.1 e1 with ⟨h1', e1'⟩
+        rcases List.getElem?_eq_some_iff.1 f0 with ⟨h0', f0'⟩
+        rw [e1', f0'] at this
+        exact le_of_lt this
+      · have : k + 1 = j := by omega
+        subst this
+        rw [e1] at f0; injection f0 with f0; rw [f0]
+    rcases g0 with g | g
+    · linarith [hpos c0 hc0]
+    · have := sq_mono_nonneg (hpos b1 hb1) hle
+      linarith [h1.2]
+
+/-- **exact characterisation for irregular classes**: with non-negative increasing breaks, a pair is given lag `k`
+if and only if `k < npas` and its distance lies in class `k` -/
+theorem lag_breaks_iff (d : Dir) (d2 : Q) (k : Nat) (hirr : 2 ≤ d.breaks.length)
+    (hpos : ∀ b ∈ d.breaks, 0 ≤ b) (hinc : d.breaks.Pairwise (· < ·)) :
+    lagRank d d2 = some k ↔ (InClass d.breaks d2 k ∧ k < d.npas) := by
+  constructor
+  · intro h
+    obtain ⟨a, _, c⟩ := lag_breaks_sound d d2 k hirr h
+    exact ⟨a, c⟩
+  · rintro ⟨hin, hk⟩
+    exact lag_breaks_complete d d2 k hirr hin
+      (fun j hj hjc => by have := classes_disjoint d.breaks hpos hinc d2 j k hjc hin; omega) hk
+
 end GstProofs.C12
